@@ -2,7 +2,7 @@
    e_PolyK is the expression tree regenerated from `impl Evaluate for PolyK` (whatever scheme it uses). *)
 From Coq Require Import List ZArith Reals Lra Lia.
 From Flocq Require Import Core BinarySingleNaN.
-Require Import PP.FloatModel PP.Expr PP.FloatOps PP.FloatFacts PP.RealOps PP.ErrorBound PP.PolyFacts PP.Model.PwModel
+Require Import PP.FloatModel PP.Expr PP.FloatOps PP.FloatFacts PP.RealOps PP.ErrorBound PP.SafeDec PP.PolyFacts PP.Model.PwModel
   PP.Proofs.KernelBounds PP.Proofs.PolyNProofs PP.Gen.Kernels.
 Import ListNotations.
 Local Open Scope R_scope.
@@ -269,6 +269,46 @@ Theorem C01_log_propagation : forall (cs : list R) (l lnv M : R), Rabs l <= M ->
 Proof. exact polyval_lipschitz. Qed.
 
 (* non-vacuity: 1 + 2x + 3x^2 + 4x^3 at x = 2 is exactly 49 *)
+
+(* ---- non-vacuity: concrete inputs meet the hypotheses of the binary64 theorems above (decided by exact rational
+   arithmetic, lib/SafeDec.v): `safe` on generic data, `exact_safe` on small integers ---- *)
+Example C01_Poly0_hypotheses_hold :
+  safe (map of_bits [4607632778762754458; 4604750475001237340]%Z) e_Poly0 /\
+  exact_safe (map of_bits [4607182418800017408; 4611686018427387904]%Z) e_Poly0.
+Proof. split; [apply safeb_sound|apply exact_safeb_sound]; vm_compute; reflexivity. Qed.
+Example C01_Poly1_hypotheses_hold :
+  safe (map of_bits [4607632778762754458; 13835733595226269286; 4604750475001237340]%Z) e_Poly1 /\
+  exact_safe (map of_bits [4607182418800017408; 4611686018427387904; 4611686018427387904]%Z) e_Poly1.
+Proof. split; [apply safeb_sound|apply exact_safeb_sound]; vm_compute; reflexivity. Qed.
+Example C01_Poly2_hypotheses_hold :
+  safe (map of_bits [4607632778762754458; 13835733595226269286; 4604480259023595110; 4604750475001237340]%Z) e_Poly2 /\
+  exact_safe (map of_bits [4607182418800017408; 4611686018427387904; 4613937818241073152; 4611686018427387904]%Z) e_Poly2.
+Proof. split; [apply safeb_sound|apply exact_safeb_sound]; vm_compute; reflexivity. Qed.
+Example C01_Poly3_hypotheses_hold :
+  safe (map of_bits [4607632778762754458; 13835733595226269286; 4604480259023595110; 4615964438073389875; 4604750475001237340]%Z) e_Poly3 /\
+  exact_safe (map of_bits [4607182418800017408; 4611686018427387904; 4613937818241073152; 4616189618054758400; 4611686018427387904]%Z) e_Poly3.
+Proof. split; [apply safeb_sound|apply exact_safeb_sound]; vm_compute; reflexivity. Qed.
+Example C01_Poly4_hypotheses_hold :
+  safe (map of_bits [4607632778762754458; 13835733595226269286; 4604480259023595110; 4615964438073389875; 13825150136101948621; 4604750475001237340]%Z) e_Poly4 /\
+  exact_safe (map of_bits [4607182418800017408; 4611686018427387904; 4613937818241073152; 4616189618054758400; 4617315517961601024; 4611686018427387904]%Z) e_Poly4.
+Proof. split; [apply safeb_sound|apply exact_safeb_sound]; vm_compute; reflexivity. Qed.
+Example C01_Poly5_hypotheses_hold :
+  safe (map of_bits [4607632778762754458; 13835733595226269286; 4604480259023595110; 4615964438073389875; 13825150136101948621; 4563407430421976187; 4604750475001237340]%Z) e_Poly5 /\
+  exact_safe (map of_bits [4607182418800017408; 4611686018427387904; 4613937818241073152; 4616189618054758400; 4617315517961601024; 4618441417868443648; 4611686018427387904]%Z) e_Poly5.
+Proof. split; [apply safeb_sound|apply exact_safeb_sound]; vm_compute; reflexivity. Qed.
+Example C01_Poly6_hypotheses_hold :
+  safe (map of_bits [4607632778762754458; 13835733595226269286; 4604480259023595110; 4615964438073389875; 13825150136101948621; 4563407430421976187; 4635168068359474381; 4604750475001237340]%Z) e_Poly6 /\
+  exact_safe (map of_bits [4607182418800017408; 4611686018427387904; 4613937818241073152; 4616189618054758400; 4617315517961601024; 4618441417868443648; 4619567317775286272; 4611686018427387904]%Z) e_Poly6.
+Proof. split; [apply safeb_sound|apply exact_safeb_sound]; vm_compute; reflexivity. Qed.
+Example C01_Poly7_hypotheses_hold :
+  safe (map of_bits [4607632778762754458; 13835733595226269286; 4604480259023595110; 4615964438073389875; 13825150136101948621; 4563407430421976187; 4635168068359474381; 13841250504769798144; 4604750475001237340]%Z) e_Poly7 /\
+  exact_safe (map of_bits [4607182418800017408; 4611686018427387904; 4613937818241073152; 4616189618054758400; 4617315517961601024; 4618441417868443648; 4619567317775286272; 4620693217682128896; 4611686018427387904]%Z) e_Poly7.
+Proof. split; [apply safeb_sound|apply exact_safeb_sound]; vm_compute; reflexivity. Qed.
+Example C01_Poly8_hypotheses_hold :
+  safe (map of_bits [4607632778762754458; 13835733595226269286; 4604480259023595110; 4615964438073389875; 13825150136101948621; 4563407430421976187; 4635168068359474381; 13841250504769798144; 4612136378390124954; 4604750475001237340]%Z) e_Poly8 /\
+  exact_safe (map of_bits [4607182418800017408; 4611686018427387904; 4613937818241073152; 4616189618054758400; 4617315517961601024; 4618441417868443648; 4619567317775286272; 4620693217682128896; 4621256167635550208; 4611686018427387904]%Z) e_Poly8.
+Proof. split; [apply safeb_sound|apply exact_safeb_sound]; vm_compute; reflexivity. Qed.
+
 Example C01_example :
   map to_bits (evals FOps0 (map of_bits [4607182418800017408; 4611686018427387904; 4613937818241073152; 4616189618054758400; 4611686018427387904]%Z) k_Poly3__evaluate)
   = [4632092954238910464%Z].
